@@ -10,6 +10,12 @@ CLAIMED = {
  "C06": dict(tech="Lean 4 theorems (encode/decode round trip, exact consumption, size limits) over a model of protocol.py + extracted header facts + byte-level correspondence",
              text="Proof: for every message, payload, annotation list, compression setting, MAX_MESSAGE_SIZE and trailing stream the model decoder returns exactly what the model encoder was given and consumes exactly its bytes; tie to the code by differential runs of SendingMessage/ReceivingMessage/recv_stub against the model driver on generated and mutated byte strings.",
              note="zlib is a parameter with the round-trip law (validated differentially); connection.recv is 'exactly n bytes or raise' (that contract is C17)."),
+ "C08": dict(tech="Lean 4: invariant by induction over arbitrary item sequences / event interleavings for a model of _handshake, handleRequest and both transports' connection life cycle; extracted accept-lists and guard shapes; history correspondence on the real transports over in-memory sockets",
+             text="Proof: for every sequence of items on a connection and every interleaving over any number of connections, a method is executed only after the first reply on that connection was CONNECTOK; the handshake accepts exactly a well-formed CONNECT with a known serializer for a registered object accepted by the validator, every other first item gets CONNECTFAIL (or nothing iff the peer is gone) and the connection is closed, after which nothing pipelined has any effect. Tie: generated histories rendered with the real encoder through the real thread-pool and multiplex servers vs the model driver (replies, executions, closure).",
+             note="byte level delegated to C06/C17 (items = outcomes of recv_stub); serializer dump failures are parameters supplied per history; pre-connected socket pairs exempt by the property."),
+ "C13": dict(tech="Lean 4: accounting invariant (hook calls, close calls, resource closes, session instances, slot) by induction over item sequences and event interleavings on the server model; extracted finally/inactive-branch shapes; history correspondence incl. a cut at every byte offset on both real transports",
+             text="Proof: for every way and point a connection can end, when it is closed the disconnect hook ran exactly once iff it had been accepted, the connection was closed once, exactly the resources tracked at that moment were closed, each once, session instances dropped, slot released; before that nothing is cleaned up; other connections' records are untouched (frame). Tie: histories with track/untrack/session calls and every ending, plus one request cut at every byte offset, on the real thread-pool and multiplex servers vs the model (hook count, per-resource close count, pool/selector accounting).",
+             note="GC timing of weakly tracked resources and daemon shutdown with open connections are outside the model; byte level delegated to C06/C17."),
  "C15": dict(tech="Lean 4: generic lock-atomicity theorem over a micro-step interleaving semantics (all schedules, any number of threads) instantiated with the name-server operations; premise = lock shape extracted from nameserver.py; tie by sequential correspondence + deterministic-scheduler exploration of the real code checked for linearizability",
              text="Proof: every interleaving of any number of concurrent name-server calls equals the sequential execution of the completed calls in lock-release order (Lock.atomic), hence exactly one of n concurrent safe registrations succeeds and concurrent removals of one name report 1,0,0,... and never fail; the premise that every storage access is inside `with self.lock` is re-proved from the extracted lock shape on every run. Tie: sequential histories real vs model; real NameServer with instrumented lock/storage run under all schedules up to a preemption bound, outcomes checked for linearizability.",
              note="GIL-atomicity of single dict operations assumed; real preemption replaced by the model's 'any schedule' and, on the real code, by enumerated/random schedules at storage-access granularity; sqlite back-end concurrency (its own connection per call) is not modelled."),
